@@ -4,6 +4,7 @@ package main
 
 import (
 	"fmt"
+	"sync"
 	"go/types"
 	"math/big"
 	"regexp"
@@ -120,12 +121,19 @@ func isIntType(t types.Type) (*types.Basic, bool) {
 	return nil, false
 }
 
+var layoutMu sync.Mutex
+
 func layout(t types.Type) []Comp {
-	if c, ok := layoutCache[t]; ok {
+	layoutMu.Lock()
+	c, ok := layoutCache[t]
+	layoutMu.Unlock()
+	if ok {
 		return c
 	}
-	c := layout1(t)
+	c = layout1(t)
+	layoutMu.Lock()
 	layoutCache[t] = c
+	layoutMu.Unlock()
 	return c
 }
 
